@@ -57,7 +57,9 @@ class C06(C05):
         if "config_error" in io["out"]:
             return None
         from .c05 import norm_opts
-        o = norm_opts(case["runtime"] if case.get("runtime") is not None else case["cls"].get("opts"))
+        from .c05 import flat
+        own = case["cls"].get("opts") if case.get("kind") == "func" else flat(case).get("opts")
+        o = norm_opts(case["runtime"] if case.get("runtime") is not None else own)
         return same(io["df"], io["ff"], o["collect_errors"], o["max_errors"])
 
 
